@@ -12,7 +12,7 @@ def enc(v) -> int:
     m = re.fullmatch(r"V(\d+)((?:_prime)*)", name)
     if m:
         return 2 * int(m.group(1)) + len(m.group(2)) // 6
-    m = re.fullmatch(r"u_(\d+)", name)
+    m = re.fullmatch(r"(?:u_|L|lat)(\d+)", name)
     if m:
         # y0 keeps, among latents with the same children, the one whose NAME sorts first: "u_11" < "u_4". The code of u_k is its rank in
         # string order (k < 100), so that the model's numeric comparison is y0's comparison of names.
@@ -110,7 +110,10 @@ class C16(PropBase):
                 g = GG.rand_admg(rng, 3, 6)
                 cases.append({"kind": "evans", "g": g, "lat": rng.sample(g["nodes"], rng.randint(0, max(1, len(g["nodes"]) - 2)))})
             elif rng.random() < 0.3:
-                cases.append({"kind": "round", "g": GG.rand_admg(rng, 2, 6)})
+                c = {"kind": "round", "g": GG.rand_admg(rng, 2, 6)}
+                if rng.random() < 0.35:   # the rarely used keyword arguments of to_latent_variable_dag / from_latent_variable_dag
+                    c["kw"] = {"start": rng.choice([0, 1, 2, 7]), "prefix": rng.choice([None, "L", "lat"]), "tag": rng.choice([None, "is_latent"])}
+                cases.append(c)
             elif rng.random() < 0.3:
                 # a directed chain of 3..4 latents with observed nodes hanging off it (the bypass edges of rule 2 between two latents matter)
                 m = rng.randint(3, 4)
@@ -152,9 +155,11 @@ class C16(PropBase):
         if case["kind"] == "round":
             gr = GG.to_y0(case["g"])
             before = GG.snapshot(gr)
-            dag = gr.to_latent_variable_dag()
-            back = NxMixedGraph.from_latent_variable_dag(dag)
-            out = {"lv": lv_of_nx(dag), "back": admg_enc(back)}
+            kw = {k: v for k, v in case.get("kw", {}).items() if v is not None}
+            tag = kw.get("tag")
+            dag = gr.to_latent_variable_dag(**kw)
+            back = NxMixedGraph.from_latent_variable_dag(dag, **({"tag": tag} if tag else {}))
+            out = {"lv": lv_of_nx(dag, tag or "hidden"), "back": admg_enc(back)}
             g2 = {"nodes": [2 * v for v in case["g"]["nodes"]], "dir": [[2 * a, 2 * b] for a, b in case["g"]["dir"]],
                   "bid": [[2 * a, 2 * b] for a, b in case["g"]["bid"]]}
             if sets_of(out["back"]) != sets_of(g2) or not (back == gr):
